@@ -17,7 +17,8 @@ RULE_TEXT = ("C02-R: on every loop-body path of Interface::run the path variable
              "call's `terminated` flag is true exactly when the consumer of the unit's end took a newline (false for `;`) "
              "and its `header` is the path the header parser returned; C02-S: every future is awaited in place and the "
              "crate defines no Future/poll machinery."
-             " C02-K: the buffer discipline of process (rules K1-K7 of C07) - run is handed one whole message per call.")
+             " C02-K: the buffer discipline of process (rules K1-K7 of C07) - run is handed one whole message per call."
+             " C02-C04X: a unit's response - terminator and flush - is completed by execute itself, which run awaits in place (rule C04-X).")
 
 COMPOUND = "microscpi::parser::compound_command_program_header"
 COMMON = "microscpi::parser::common_command_program_header"
@@ -42,6 +43,11 @@ def run(ck):
     # read boundary): the buffer discipline of process, as decided for C07
     import c07
     c07.rule_K(ck, lib, "C02-K")
+    # "each finishing (response included) before the next starts": the response of a query - terminator and flush - is
+    # completed by execute itself, which run awaits in place (rule C04-X)
+    import c04
+    with ck.under("C04-", "C02-C04"):
+        c04.rule_X(ck, lib)
 
 
 # ---------------------------------------------------------------- C02-R
